@@ -200,6 +200,9 @@ func conc(c *Ctx) {
 	}
 	if ow || c.Opt("backend", "") == "1" || (c.Opt("backend", "") == "" && r.Chance(1, 3)) {
 		st = world.NewStore(s, cfg.Storage == "zstd")
+		if r.Chance(1, 2) {
+			st.BodyParks = []int{46, 100, 3000}
+		}
 		proxy = &world.DirectProxy{St: st}
 		for _, b := range casBlobs {
 			if r.Chance(1, 2) {
